@@ -138,6 +138,8 @@ func verifAllocDone() {
 // verifQuiesce / verifAdvanceClock / verifBlockedInfo only have meaning under the engine's scheduler.
 func verifQuiesce() int         { return 0 }
 func verifAdvanceClock(d int64) { time.Sleep(time.Duration(d)) }
+// verifClock returns the clock in nanoseconds (virtual under the engine).
+func verifClock() int64 { return time.Now().UnixNano() }
 func verifBlockedInfo() string  { return "" }
 
 func verifRunCase(k int, c *verifCase) (failed bool) {
